@@ -125,6 +125,9 @@ class StemFilter(Filter):
                 self._stem = unbound_cache(stemfn)
             elif self.cachesize > 1:
                 self._stem = lfu_cache(self.cachesize)(stemfn)
+            else:
+                # (a cache of one entry is not worth having)
+                self._stem = stemfn
         else:
             self._stem = stemfn
 
